@@ -234,22 +234,29 @@ fn union_expr(input: &str) -> IResult<&str, model::UnionExpr> {
 /// [\[19\] PathExpr](https://triple-underscore.github.io/XML/xpath10-ja.html#NT-UnionExpr)
 fn path_expr(input: &str) -> IResult<&str, model::PathExpr> {
     alt((
+        // FilterExpr, optionally followed by '/' or '//' and a relative path. The filter
+        // expression is parsed once: parsing it again for each alternative costs 2^n on
+        // nested parentheses and function calls.
         map(
             tuple((
                 filter_expr,
-                delimited(
-                    multispace0,
-                    map(
-                        alt((tag("//"), tag("/"))),
-                        model::LocationPathOperator::from,
+                opt(tuple((
+                    delimited(
+                        multispace0,
+                        map(
+                            alt((tag("//"), tag("/"))),
+                            model::LocationPathOperator::from,
+                        ),
+                        multispace0,
                     ),
-                    multispace0,
-                ),
-                relative_location_path,
+                    relative_location_path,
+                ))),
             )),
-            |(filter, op, path)| model::PathExpr::from((Some((Some(filter), op)), path)),
+            |(filter, path)| match path {
+                Some((op, path)) => model::PathExpr::from((Some((Some(filter), op)), path)),
+                None => model::PathExpr::from(filter),
+            },
         ),
-        map(filter_expr, model::PathExpr::from),
         map(
             tuple((
                 terminated(
@@ -263,7 +270,6 @@ fn path_expr(input: &str) -> IResult<&str, model::PathExpr> {
             )),
             |(op, path)| model::PathExpr::from((Some((None, op)), path)),
         ),
-        map(filter_expr, model::PathExpr::from),
         map(relative_location_path, model::PathExpr::from),
         map(char('/'), |_| model::PathExpr::Root),
     ))(input)
